@@ -16,6 +16,7 @@
   Answer: `<out> | <canonical state>`.
 -/
 import FtModel.Session
+import FtModel.IouDrv
 namespace Ft.SessDrv
 open Ft
 
@@ -211,7 +212,7 @@ def showSuccOrder (s : St) : List String :=
     let sc := s.succs n
     toString n :: toString sc.length :: sc.map toString)
 
-def step (s : St) (ts : List String) : St × String :=
+def stepRaw (s : St) (ts : List String) : St × String :=
   match ts with
   | "init" :: rest =>
     match (initP.run rest) with
@@ -241,5 +242,15 @@ def step (s : St) (ts : List String) : St × String :=
       let (s', out) := s.step op
       (s', joinSp (showOut out ++ ["|"] ++ showState s' ++ showSuccOrder s'))
     | _ => (s, "bad-op")
+
+/-- One protocol step, plus the run-both check of the IoU code paths: on the state reached, the
+    model of `EdgeAnnotator.compute/_iou_update/update` *as written* (`FtModel/IouFaithful.lean`:
+    frame-pair grouping, removal from the edge list, leftovers ↦ 0, first entry of the masked list)
+    must give the same edge records as the per-edge functions the session model uses (they are
+    proved equal for duplicate-free graphs with non-zero ids: `C09_faithful_bulk_eq`,
+    `C09_faithful_incr_eq`). A mismatch is answered `bad-model` instead of a state. -/
+def step (s : St) (ts : List String) : St × String :=
+  let (s', out) := stepRaw s ts
+  if IouDrv.crossCheck s' then (s', out) else (s', "bad-model")
 
 end Ft.SessDrv
